@@ -224,3 +224,27 @@ def IntervalG() -> Obj:
     from specs import views as V
 
     return Obj("pyoda_time._interval:Interval", {"_Interval__start": InstantAnyG(), "_Interval__end": InstantAnyG()}, inv=lambda o: V.inst_ns(V.fld(o, "_Interval__start")) <= V.inst_ns(V.fld(o, "_Interval__end")))
+
+
+class IsoAbsCalG(AbsCalG):
+    """The ISO calendar seen through the calendar interface contract: an abstract calendar with ordinal 0 that also
+    stands in for the live `CalendarSystem.iso` object (default arguments, `CalendarSystem.iso`)."""
+
+    def make(self, name, b):
+        ac = super().make(name, b)
+        b.assume(ac.ordinal == 0)
+        orig_register = ac.register
+
+        def register(eng, ac=ac, orig=orig_register):
+            orig(eng)
+            from pyoda_time import CalendarSystem
+
+            eng.alias[id(CalendarSystem.iso)] = ac.system
+
+        ac.register = register
+        return ac
+
+    def realize(self, v, ev, ctx):
+        ctx.setdefault("ordinal_override", {})[self.name] = 0
+        ctx["iso_only"] = True
+        return super().realize(v, ev, ctx)
